@@ -201,6 +201,8 @@ def gen_state(d, nodes):
     if "BLD" in parts:
         bid = str(int(bid)) if int(bid) >= 1 else "1"
     tag = d.choice(TAGS)
+    if "TAG" in parts and d.chance(1, 12):
+        tag = "preview"
     s = state_from(date, major=gen_num(d), minor=gen_num(d), patch=gen_num(d), num=gen_num(d), inc0=gen_num(d),
                    inc1=max(1, gen_num(d)), bid=bid, tag=tag)
     if tag == "final":
